@@ -168,6 +168,12 @@ def run_unit(unit, rng, ctx):
                 n_pairs += a
                 n_long += b
                 ctx.count('via_Jumps.collective')
+                # the convenience properties use the default cut-off (1 A)
+                want_def = models.collective_pairs(rows, sys_.site_frac, sys_.matrix, coll.max_steps, 1.0)
+                dvals = dsite[np.triu_indices(len(dsite), 1)]
+                if np.min(np.abs(dvals - 1.0)) > 1e-6:
+                    n_solo_want = len(rows) - len({k_ for pr in want_def for k_ in pr})
+                    ctx.check(j.n_solo_jumps == n_solo_want and abs(j.solo_fraction - n_solo_want / len(rows)) <= 1e-12, f'{what}: Jumps.n_solo_jumps={j.n_solo_jumps}, solo_fraction={j.solo_fraction!r}; enumeration with the default 1 A cut-off gives {n_solo_want} of {len(rows)}', wit)
                 # history: the same Jumps object asked again with another cut-off, then with the first one
                 cut_b = pick_cutoff(rng, dsite)
                 coll_b = j.collective(max_dist=cut_b)
